@@ -16,22 +16,22 @@
 #include "vf.h"
 struct ABTI_ythread; struct ABTI_ythread *vf_yk, *vf_ys;
 long vf_calls, vf_k, vf_fail_at; unsigned vf_k_created, vf_bad; void *vf_out0; /* newthread_list[k] before the call */ const void *vf_exp_attr;
-const void *vf_a_pool, *vf_a_arg, *vf_a_attr, *vf_a_sched; void (*vf_a_func)(void *); unsigned vf_a_type; int vf_a_op; /* arguments of call number vf_k */
+const void *vf_a_pool, *vf_a_arg, *vf_a_attr, *vf_a_sched; void (*vf_a_func)(void *); unsigned vf_a_type; int vf_a_op; size_t vf_a_stacksize; const void *vf_a_ustack; /* arguments of call number vf_k */
 #include "abti.h"
 ABTI_global *gp_ABTI_global; ABTD_XSTREAM_LOCAL ABTI_local *lp_ABTI_local;
 #include <thread.c>
 ABTU_ret_err static inline int ythread_create(ABTI_global *p_global, ABTI_local *p_local, ABTI_pool *p_pool, void (*thread_func)(void *), void *arg, ABTI_thread_attr *p_attr,
                                               ABTI_thread_type thread_type, ABTI_sched *p_sched, thread_pool_op_kind pool_op, ABTI_ythread **pp_newthread)
 __CPROVER_requires(vf_calls >= 0 && vf_calls < 2000000)
-__CPROVER_assigns(*pp_newthread, vf_calls, vf_k_created, vf_a_pool, vf_a_arg, vf_a_attr, vf_a_sched, vf_a_func, vf_a_type, vf_a_op)
+__CPROVER_assigns(*pp_newthread, vf_calls, vf_k_created, vf_a_pool, vf_a_arg, vf_a_attr, vf_a_sched, vf_a_func, vf_a_type, vf_a_op, vf_a_stacksize, vf_a_ustack)
 __CPROVER_ensures(vf_calls == __CPROVER_old(vf_calls) + 1)
 __CPROVER_ensures(__CPROVER_return_value == (__CPROVER_old(vf_calls) == vf_fail_at ? ABT_ERR_MEM : ABT_SUCCESS))
 __CPROVER_ensures(__CPROVER_old(vf_calls) == vf_fail_at ==> *pp_newthread == __CPROVER_old(*pp_newthread)) /* a failed creation does not write its output */
 __CPROVER_ensures((__CPROVER_old(vf_calls) != vf_fail_at && __CPROVER_old(vf_calls) == vf_k) ==> __CPROVER_pointer_equals(*pp_newthread, vf_yk))
 __CPROVER_ensures((__CPROVER_old(vf_calls) != vf_fail_at && __CPROVER_old(vf_calls) != vf_k) ==> __CPROVER_pointer_equals(*pp_newthread, vf_ys))
 __CPROVER_ensures(vf_k_created == ((__CPROVER_old(vf_calls) == vf_k && vf_k != vf_fail_at && __CPROVER_old(vf_k_created) < 2) ? __CPROVER_old(vf_k_created) + 1 : __CPROVER_old(vf_k_created)))
-__CPROVER_ensures(__CPROVER_old(vf_calls) == vf_k ? (vf_a_pool == p_pool && vf_a_arg == arg && vf_a_attr == p_attr && vf_a_sched == p_sched && vf_a_func == thread_func && vf_a_type == (unsigned)thread_type && vf_a_op == (int)pool_op)
-                                                  : (vf_a_pool == __CPROVER_old(vf_a_pool) && vf_a_arg == __CPROVER_old(vf_a_arg) && vf_a_attr == __CPROVER_old(vf_a_attr) && vf_a_sched == __CPROVER_old(vf_a_sched) && vf_a_func == __CPROVER_old(vf_a_func) && vf_a_type == __CPROVER_old(vf_a_type) && vf_a_op == __CPROVER_old(vf_a_op)));
+__CPROVER_ensures(__CPROVER_old(vf_calls) == vf_k ? (vf_a_pool == p_pool && vf_a_arg == arg && vf_a_attr == p_attr && vf_a_sched == p_sched && vf_a_func == thread_func && vf_a_type == (unsigned)thread_type && vf_a_op == (int)pool_op && vf_a_stacksize == (p_attr ? p_attr->stacksize : (size_t)0) && vf_a_ustack == (p_attr ? p_attr->p_stack : NULL))
+                                                  : (vf_a_pool == __CPROVER_old(vf_a_pool) && vf_a_arg == __CPROVER_old(vf_a_arg) && vf_a_attr == __CPROVER_old(vf_a_attr) && vf_a_sched == __CPROVER_old(vf_a_sched) && vf_a_func == __CPROVER_old(vf_a_func) && vf_a_type == __CPROVER_old(vf_a_type) && vf_a_op == __CPROVER_old(vf_a_op) && vf_a_stacksize == __CPROVER_old(vf_a_stacksize) && vf_a_ustack == __CPROVER_old(vf_a_ustack)));
 
 /* thread_revive and the directed switch by recording contracts (their own units: thread_revive, sw_yield_to) */
 unsigned vf_revives, vf_yields_to; int vf_rev_fail; const void *vf_r_pool, *vf_r_arg, *vf_r_thread, *vf_y_self, *vf_y_target; void (*vf_r_func)(void *); int vf_r_op, vf_y_kind; unsigned vf_y_after_revive; const void *vf_out_at_yield; ABT_thread *vf_outp;
@@ -120,4 +120,23 @@ void h_api_revive(void)
         else VF_ASSERT(r == ABT_SUCCESS && vf_yields_to == 1 && vf_y_self == &selfy && vf_y_target == &YK && vf_y_kind == (int)ABTI_YTHREAD_YIELD_TO_KIND_CREATE_TO && (!want || (h == (ABT_thread)&YK && vf_out_at_yield == (void *)&YK)), "success: the handle is stored BEFORE the switch (the new ULT may use it), then exactly one switch to the new ULT");
         VF_REACH("create_to"); VF_COVER(r == ABT_SUCCESS && want, "created and switched");
     }
+}
+
+/* the runtime's own ULTs: primary ULT, root ULT, main-scheduler ULT, stackable-scheduler ULT */
+void h_create_internal(void)
+{
+    setup(); vf_k = 0; { int f; vf_fail_at = f ? 0 : -1; } lp_ABTI_local = NULL;
+    int which; VF_ASSUME(0 <= which && which <= 3); static ABTI_sched sc; static ABT_pool mp[1]; mp[0] = (ABT_pool)&mainpool; msched.pools = mp; msched.num_pools = 1; xtarget.p_main_sched = &msched; xtarget.p_root_pool = &pool;
+    { size_t ss; glob.sched_stacksize = ss; } { int pr; xtarget.type = pr ? ABTI_XSTREAM_TYPE_PRIMARY : ABTI_XSTREAM_TYPE_SECONDARY; }
+    ABTI_ythread *out = (ABTI_ythread *)0x40; ABTI_ythread *sy0 = (ABTI_ythread *)0x48; sc.p_ythread = sy0; void (*runf)(ABT_sched); sc.run = runf;
+    int r = which == 0 ? ABTI_ythread_create_primary(&glob, NULL, &xtarget, &out) : which == 1 ? ABTI_ythread_create_root(&glob, NULL, &xtarget, &out)
+          : which == 2 ? ABTI_ythread_create_main_sched(&glob, NULL, &xtarget, &sc) : ABTI_ythread_create_sched(&glob, NULL, &pool, &sc);
+    ABTI_ythread *got = which <= 1 ? out : sc.p_ythread; ABTI_ythread *before = which <= 1 ? (ABTI_ythread *)0x40 : sy0;
+    VF_ASSERT(vf_calls == 1 && vf_a_ustack == NULL && vf_a_attr != NULL, "one creation, never on a user-provided stack");
+    VF_ASSERT(r == (vf_fail_at == 0 ? ABT_ERR_MEM : ABT_SUCCESS) && got == (vf_fail_at == 0 ? before : &YK), "failure: the error, the output (the scheduler's ULT link) untouched; success: the new ULT");
+    if (which == 0) VF_ASSERT(vf_a_pool == &mainpool && vf_a_type == (unsigned)(ABTI_THREAD_TYPE_YIELDABLE | ABTI_THREAD_TYPE_PRIMARY) && vf_a_stacksize == 0 && vf_a_sched == NULL && vf_a_op == (int)THREAD_POOL_OP_PUSH && vf_a_func == NULL, "primary ULT: the caller's own stack (size 0: none allocated), associated with the first pool of the main scheduler");
+    if (which == 1) VF_ASSERT(vf_a_pool == NULL && vf_a_type == (unsigned)(ABTI_THREAD_TYPE_YIELDABLE | ABTI_THREAD_TYPE_ROOT | ABTI_THREAD_TYPE_NAMED) && vf_a_stacksize == (xtarget.type == ABTI_XSTREAM_TYPE_PRIMARY ? glob.sched_stacksize : (size_t)0) && vf_a_sched == NULL && vf_a_op == (int)THREAD_POOL_OP_NONE && vf_a_func == thread_root_func, "root ULT: in no pool; its own stack only on the primary stream (a secondary stream's root runs on the native thread's stack)");
+    if (which == 2) VF_ASSERT(vf_a_pool == &pool && vf_a_type == (unsigned)(ABTI_THREAD_TYPE_YIELDABLE | ABTI_THREAD_TYPE_MAIN_SCHED | ABTI_THREAD_TYPE_NAMED) && vf_a_stacksize == glob.sched_stacksize && vf_a_sched == &sc && vf_a_op == (int)THREAD_POOL_OP_PUSH && vf_a_func == thread_main_sched_func, "main-scheduler ULT: pushed to the stream's ROOT pool, carries the scheduler, scheduler stack size");
+    if (which == 3) VF_ASSERT(vf_a_pool == &pool && vf_a_type == (unsigned)ABTI_THREAD_TYPE_YIELDABLE && vf_a_stacksize == glob.sched_stacksize && vf_a_sched == &sc && vf_a_op == (int)THREAD_POOL_OP_PUSH && vf_a_func == (void (*)(void *))runf && vf_a_arg == (void *)&sc, "stackable scheduler: an unnamed ULT running the scheduler's run function on its own handle, pushed to the given pool");
+    VF_REACH("internal creates"); VF_COVER(which == 2 && r == ABT_SUCCESS, "main sched"); VF_COVER(which == 3 && vf_fail_at == 0, "stackable failed");
 }
